@@ -65,3 +65,38 @@ class FakeSelector(object):
             return []
         self.undelivered = False
         return [(FakeKey(self.data), ready)]
+
+
+class FakeRecvEvent(object):
+    """TcpConnection._recv_data_available as the receive worker sees it, plus the harness: every wait()
+    first lets the reader thread deliver the next chunk (GHOST list `chunks`) into the transport's
+    buffer -- i.e. arrivals are interleaved at iteration boundaries of the worker -- and ends the worker
+    loop once all chunks have been handed out and looked at."""
+
+    def __init__(self):
+        self.flag = False
+        self.chunks = []
+        self.assoc = None
+        self.waits = 0
+
+    def wait(self, timeout=None):
+        self.waits = self.waits + 1
+        if self.chunks:
+            c = self.chunks.pop(0)
+            self.assoc.transport._recv_data_stream = self.assoc.transport._recv_data_stream + c
+            self.flag = True
+        else:
+            self.assoc._stop_threads = True
+        return self.flag
+
+    def clear(self):
+        self.flag = False
+
+    def set(self):
+        self.flag = True
+
+
+class FakeRecvTransport(object):
+    def __init__(self):
+        self._recv_data_stream = b""
+        self._recv_data_available = None
